@@ -227,9 +227,11 @@ func Run(a Matrix, args_ ...interface{}) (Vector, Matrix, error) {
   }
   if inSitu.Eigenvectors == nil && computeEigenvectors {
     inSitu.Eigenvectors = NullDenseMatrix(t, n, n)
-    if symmetric {
-      inSitu.QrAlgorithm.U = inSitu.Eigenvectors
-    }
   }
-  return eigensystem(a, inSitu, computeEigenvectors, symmetric, args)
+  if symmetric && computeEigenvectors {
+    // the eigenvectors are the columns of u, let the qrAlgorithm
+    // accumulate u in the (possibly caller-supplied) result matrix
+    inSitu.QrAlgorithm.U = inSitu.Eigenvectors
+  }
+  return eigensystem(a, inSitu, computeEigenvectors, symmetric, args...)
 }
